@@ -165,7 +165,7 @@ theorem run_refines (cfg : DispCfg) (h : Int) (s s' : DispState) (l : Ledger) (m
     (∀ x ∈ os, x.2.2 ≠ .skipped → sGet s'.pending x.1 = none) ∧
     (∀ k, (∀ x ∈ os, x.1 ≠ k) → sGet s'.pending k = sGet s.pending k) ∧
     (∀ k r, sGet s'.pending k = some r → sGet s.pending k = some r) ∧
-    (∀ a d, a ≠ cfg.module → s'.bank.bal a d = s.bank.bal a d + paidTo os a d) ∧
+    (∀ a d, a ≠ cfg.module → s'.bank.bal a d = s.bank.bal a d + paidTo cfg.canon os a d) ∧
     (∀ x ∈ os, x.2.2 = .paid → sGet s'.completed x.1 = some { x.2.1 with done := h }) ∧
     (∀ x ∈ os, x.2.2 = .failed → sGet s'.failed x.1 = some { x.2.1 with done := h }) ∧
     (∀ x ∈ os, x.2.2 = .skipped → cfg.validAddr x.2.1.rcpt = false) ∧
@@ -360,7 +360,7 @@ theorem escrowCoversOn_iff (ds : List Denom) (module : Addr) (s : DispState) :
 section Example
 def xcfg : ChainCfg :=
   { disp := { module := "mod".toList, blocked := fun a => a == "mod".toList || a == "blk".toList,
-              validAddr := fun a => !a.isEmpty },
+              validAddr := fun a => !a.isEmpty, canon := id },
     mint := { cap := 1000, perBlock := 10, denom := "rowan".toList, ecoPool := "eco".toList, module := "mod".toList },
     maxRecords := 20 }
 def rowan (n : Nat) : Coins := [("rowan".toList, n)]
